@@ -82,3 +82,16 @@ func VerifC13ContextHelpers() {
 		v.Assert(slot == (want.Kind == ast.KindComposableSlot), "C13: Context.ResolveToComposableSlot disagrees with following the reference chain")
 	}
 }
+
+// VerifC07SchemasForVariant (C07): the list of composable packages of a variant handed to templates does not
+// depend on the order the inputs were given in.
+func VerifC07SchemasForVariant() {
+	mk := func(pkg string) *ast.Schema {
+		return ast.NewSchema(pkg, ast.SchemaMeta{Kind: ast.SchemaKindComposable, Variant: ast.SchemaVariantPanel, Identifier: pkg})
+	}
+	all := []*ast.Schema{mk("gauge"), mk("stat"), mk("text")}
+	perm := [][]int{{0, 1, 2}, {0, 2, 1}, {1, 0, 2}, {1, 2, 0}, {2, 0, 1}, {2, 1, 0}}[v.Choose(6)]
+	ctx := languages.Context{Schemas: ast.Schemas{all[perm[0]], all[perm[1]], all[perm[2]]}}
+	got := ctx.PackagesForVariant(string(ast.SchemaVariantPanel))
+	v.Assert(len(got) == 3 && got[0] == "gauge" && got[1] == "stat" && got[2] == "text", "C07: the packages of a variant are listed in input order")
+}
